@@ -54,6 +54,20 @@ type solverRun struct {
 	args func(file string, secs int) []string
 }
 
+// extra z3 configurations for the race: different random seeds diversify the search (z3's behaviour is
+// very sensitive to symbol naming/ordering; a small portfolio removes most of that instability)
+var seedSolvers = []solverRun{
+	{"z3-new/seed1", func(f string, s int) []string {
+		return []string{"z3-new", fmt.Sprintf("-T:%d", s), "smt.random_seed=1", "sat.random_seed=1", f}
+	}},
+	{"z3-new/seed2", func(f string, s int) []string {
+		return []string{"z3-new", fmt.Sprintf("-T:%d", s), "smt.random_seed=7", "sat.random_seed=7", "smt.arith.random_initial_value=true", f}
+	}},
+	{"z3/seed3", func(f string, s int) []string {
+		return []string{"z3", fmt.Sprintf("-T:%d", s), "smt.random_seed=3", f}
+	}},
+}
+
 var solvers = []solverRun{
 	{"z3-new", func(f string, s int) []string { return []string{"z3-new", fmt.Sprintf("-T:%d", s), f} }},
 	{"z3", func(f string, s int) []string { return []string{"z3", fmt.Sprintf("-T:%d", s), f} }},
@@ -102,7 +116,7 @@ type cached struct {
 // Discharge runs the solvers on every obligation (in parallel).
 func Discharge(obs []*Obligation, cfg SolverCfg) {
 	if cfg.Workers <= 0 {
-		cfg.Workers = 5
+		cfg.Workers = 4
 	}
 	_ = os.MkdirAll(cfg.Dir, 0o755)
 	var wg sync.WaitGroup
@@ -254,11 +268,22 @@ func dischargeOne(ob *Obligation, cfg SolverCfg) {
 			break
 		}
 	}
-	rc := make(chan res, 2*len(solvers))
+	rc := make(chan res, 4*len(solvers))
 	for _, s := range solvers {
 		s := s
 		go func() {
 			a, o, el := runSolver(rctx, s, file, cfg.Full)
+			rc <- res{s.name, a, o, el}
+		}()
+	}
+	for _, s := range seedSolvers {
+		s := s
+		nruns++
+		go func() {
+			a, o, el := runSolver(rctx, s, file, cfg.Full)
+			if a == "sat" {
+				a = "unknown" // only the default configurations are used for refutations
+			}
 			rc <- res{s.name, a, o, el}
 		}()
 	}
